@@ -56,3 +56,16 @@ pub fn first_diff(a: &[u8], b: &[u8]) -> String {
     }
     format!("common prefix of {n} bytes")
 }
+
+/// The driver of this run: io_uring (on the simulated ring) or polling (real epoll asked with zero
+/// time-outs, waits and time simulated). Choice 0 is io_uring.
+pub fn draw_driver(pb: &mut compio_driver::ProactorBuilder) -> compio_driver::DriverType {
+    let t = match simcore::weighted("driver", &[2, 1]) {
+        0 => compio_driver::DriverType::IoUring,
+        _ => compio_driver::DriverType::Poll,
+    };
+    pb.driver_type(t);
+    simcore::log(|| format!("driver: {t:?}"));
+    simcore::sig(0xd1 + (t == compio_driver::DriverType::Poll) as u64);
+    t
+}
